@@ -243,6 +243,11 @@ Definition split_tsd (x : ts) (array_split : bool) (ios : nat + list nat) : list
                (combine (pieces_of pi (t_of x)) (row_pieces pv (dat x))))
   | _, _ => inr EValueSplit
   end.
+(* _split_tsd(func, tsd, indices_or_sections, axis) for np.split / np.array_split: the time-axis branch is chosen by
+   the LITERAL test [axis == 0]; with any other value - including the negative spelling -ndim of the same axis -
+   the last branch returns what NumPy computed on the raw array ([pcs]) *)
+Definition split_tsd_axis (x : ts) (array_split : bool) (ios : nat + list nat) (axis : Z) (pcs : list arr) : list out + err :=
+  if (axis =? 0)%Z then split_tsd x array_split ios else inl (map OArr pcs).
 (* np.hsplit / np.dsplit: [pcs] is what NumPy returned on the raw array; every piece gets x's whole index *)
 Definition split_other (x : ts) (pcs : list arr) : list out :=
   map (fun d => init_out x (t_of x) (NArr d)) pcs.
@@ -258,4 +263,4 @@ Arguments OTs {V W}. Arguments OArr {V W}. Arguments OOther {V W}. Arguments ORe
 Arguments construct {V W}. Arguments init_out {V W}. Arguments array_ufunc {V W}. Arguments array_ufunc_multi {V W}. Arguments array_function {V W}.
 Arguments method_call {V W}. Arguments as_npres {V W}. Arguments mixed_ufunc {V W}.
 Arguments naps {V}. Arguments op_arr {V}. Arguments concat_tsd {V W}. Arguments cat0 {V}.
-Arguments row_pieces {V}. Arguments split_tsd {V W}. Arguments split_other {V W}.
+Arguments row_pieces {V}. Arguments split_tsd {V W}. Arguments split_tsd_axis {V W}. Arguments split_other {V W}.
